@@ -8,6 +8,6 @@ trap 'git -C /repo checkout -- . ; echo "[repo restored: $(git -C /repo status -
 if [ -z "$SKIP_TESTS" ]; then (/venv/bin/python -m pytest -q -p no:cacheprovider 2>&1 | tail -1); fi
 cd /verif
 for id in "$@"; do
-  ./check $id --tier ${TIER:-quick} 2>&1 | grep -E "^(VIOLATION|KNOWN|C[0-9]+ (quick|thorough))|HARNESS" | cut -c1-400 | head -${LINES_MAX:-8}
+  VERIF_EVIDENCE_DIR=/tmp/patch_evidence_$$ ./check $id --tier ${TIER:-quick} 2>&1 | grep -E "^(VIOLATION|KNOWN|C[0-9]+ (quick|thorough))|HARNESS" | cut -c1-400 | head -${LINES_MAX:-8}
   echo "exit($id)=${PIPESTATUS[0]}"
 done
